@@ -106,7 +106,7 @@ def check(prop, tier, seed, replay):
             d = design()
             log("Sync.tla: %d states" % d["states"])
             scripts = []
-            rounds = 1 if tier == "quick" else 8
+            rounds = 3 if tier == "quick" else 10
             for r in range(rounds):
                 for k, s in enumerate(gen_streams(seed * 50 + r)):
                     msgs = [dict(kind=m["kind"], **({"del": sorted(m["del"]), "upd": sorted([list(q) for q in m["upd"]])} if m["kind"] == "notif" else {})) for m in s["msgs"]]
@@ -119,6 +119,13 @@ def check(prop, tier, seed, replay):
                         mm = chunk(msgs, rnd) if rnd.random() < 0.4 else msgs
                         scripts.append(dict(id="sy-%d-%d-w%d-%s" % (r, k, w, "v" if val else "n"), gamma=GAMMAS[(seed + k) % 4], workers=w, validate=val,
                                             seed=rnd.randrange(1 << 30), msgs=mm))
+            # scripts that once revealed a defect are always replayed
+            import glob
+            for f in sorted(glob.glob(os.path.join(vlib.VERIF, "regress", "sync", "*.json"))):
+                with open(f) as fh:
+                    b = dict(json.load(fh)["behaviour"])
+                b["id"] = "regress-" + os.path.basename(f)[:-5]
+                scripts.append(b)
             log("%d scripts" % len(scripts))
         else:
             d = None
